@@ -70,6 +70,26 @@ def build(cname, h, sigma=1.0):
     raise ValueError(cname)
 
 
+def build_int(cname, h):
+    """the same member stored with an INTEGER dtype (None if its entries are not all integers): what a user gets from
+    SE3(np.array([[0, -1, 0, 2], ...])) - a hazard for any arithmetic done in place"""
+    if h["den"] != 1:
+        return None
+    T = np.array(h["num"], dtype=int)
+    if cname == "SE3":
+        return SE3(T)
+    if cname == "SO3":
+        return SO3(T[:3, :3])
+    if not is_planar(h):
+        return None
+    T3i = np.array([[T[0, 0], T[0, 1], T[0, 3]], [T[1, 0], T[1, 1], T[1, 3]], [0, 0, 1]], dtype=int)
+    if cname == "SE2":
+        return SE2(T3i)
+    if cname == "SO2":
+        return SO2(T3i[:2, :2])
+    return None
+
+
 def expected(cname, h, sigma=1.0):
     if cname == "SO3":
         return R3(h)
